@@ -47,6 +47,7 @@ pub struct HistStats {
     pub rows_rewritten_multi_index: usize,
     pub enum_elements_checked: usize,
     pub skipped_cmds: usize,
+    pub observed_states: usize,
     pub anomalies: Vec<String>,
 }
 
@@ -684,6 +685,20 @@ impl<'a> Judge<'a> {
                     }
                     let closed = !ret;
                     let dm = d.to_model(p);
+                    if self.or.c04 {
+                        // every state the condition closure saw
+                        match resp.observations(p) {
+                            Ok(obs) => {
+                                for (k, (_, od)) in obs.iter().enumerate() {
+                                    st.observed_states += 1;
+                                    if let Err(e) = check_canonical(p, od, false, &mut st) {
+                                        fail!("C04", i, "at evaluation {} of the close_until condition: {}", k, e);
+                                    }
+                                }
+                            }
+                            Err(e) => st.anomalies.push(format!("unparsable observation: {}", e)),
+                        }
+                    }
                     if self.or.c04 {
                         let before = st.anomalies.len();
                         if let Err(e) = check_canonical(p, d, closed, &mut st) {
